@@ -17,6 +17,7 @@ def handlers : List (List Sexp → Option Sexp) :=
     Driver.settingsHandle,
     Driver.wordPathsHandle,
     Driver.sugarHandle,
+    Driver.heapHandle,
     Driver.infixHandle ]
 
 def dispatch (line : String) : String :=
